@@ -62,7 +62,11 @@ func vIntCase[T ~int8 | ~int16 | ~int32 | ~int64](name string, val T, bits int, 
 	if !panicked {
 		sym.Reach(name + "-ok")
 		sym.Assert(int(c.Width()) == int(w), name+": width")
-		sym.Assert(vLEBytesOK(c, v.SExt(128), int(w)), name+": little-endian two's-complement encoding")
+		ext := 128
+		if 8*int(w) > ext {
+			ext = 8 * int(w)
+		}
+		sym.Assert(vLEBytesOK(c, v.SExt(ext), int(w)), name+": little-endian two's-complement encoding")
 	} else {
 		sym.Reach(name + "-panics")
 	}
@@ -70,7 +74,7 @@ func vIntCase[T ~int8 | ~int16 | ~int32 | ~int64](name string, val T, bits int, 
 }
 
 func VerifC27New() {
-	w := Width(1 + sym.Choose(sym.Param("maxw", 9)))
+	w := Width(vWidth27())
 	switch sym.Choose(8) {
 	case 0:
 		vUintCase("uint8", sym.Uint8("v"), 8, w)
@@ -110,7 +114,7 @@ func vConstUintCase[T ~uint8 | ~uint16 | ~uint32 | ~uint64](name string, c Const
 }
 
 func VerifC27Read() {
-	w := 1 + sym.Choose(sym.Param("maxw", 9))
+	w := vWidth27()
 	src := sym.Bytes("src", w)
 	c := NewConst(src, Width(w))
 	switch sym.Choose(4) {
@@ -158,4 +162,16 @@ func VerifC27Copy() {
 	}
 	sym.Assert(ok2, "WithWidth zero-extends or truncates")
 	sym.MustFail(c.Bytes()[0] == src[0], "twin: constant aliases the source slice")
+}
+
+// vWidth27: every width 1..maxw and the widths around the 32-byte mark, where
+// 8*w no longer fits a byte (Width is a uint8), plus the largest ones.
+func vWidth27() int {
+	maxw := sym.Param("maxw", 9)
+	extras := []int{31, 32, 33, 64, 128, 255}
+	i := sym.Choose(maxw + len(extras))
+	if i < maxw {
+		return 1 + i
+	}
+	return extras[i-maxw]
 }
